@@ -1,4 +1,5 @@
 import WfProofs.IterUtilsDspThm
+import WfProofs.IterUtilsProgress
 /-!
 # C29 — stream merge and sorted-prefix utilities preserve items and order
 
@@ -114,6 +115,39 @@ example : ∃ m : Merge Nat,
     (Merge.init Gen.mergeDefaultStop 2).exec [.prod 0 7, .err 1 99, .batch [1, 0]] = some m
     ∧ m.phase = .finished (some 99) ∧ m.out = [] ∧ C29_sourceSeq 0 [.prod 0 7, .err 1 99, .batch [1, 0]] = [7] :=
   ⟨_, rfl, rfl, rfl, rfl⟩
+
+
+/-- The merge never blocks by itself: in every reachable state it has finished, or its next own
+    action is enabled (`resume` when suspended at a `yield`; a `batch` over the finished tasks when
+    waiting), or it waits and *every* remaining task is still pending (only a source can move). In
+    particular a finished (failed) task is always picked up. -/
+theorem C29_merge_never_stuck (sf : Bool) (n : Nat) (acts : List (Act α)) (m : Merge α)
+    (h : (Merge.init sf n).exec acts = some m) :
+    match m.phase with
+    | .finished _ => True
+    | .suspended _ _ => (m.step .resume).isSome = true
+    | .waiting => ((∃ i : Nat, m.slots[i]? = some Slot.pending) ∧
+          ∀ (i : Nat) (s : Slot α), m.slots[i]? = some s → s.hasTask = true → s = Slot.pending)
+        ∨ (m.step (.batch (doneIdx m))).isSome = true :=
+  never_stuck (exec_inv (init_inv sf n) acts h)
+
+example : ∃ m : Merge Nat, (Merge.init false 3).exec [.prod 0 7, .err 2 5] = some m
+    ∧ doneIdx m = [0, 2] ∧ (m.step (.batch (doneIdx m))).isSome = true :=
+  ⟨_, rfl, rfl, rfl⟩
+
+/-- ... and once a failed task has been seen, every `resume` either hands out one more result
+    collected in that same wake-up or raises that error: the error surfaces after at most
+    `rest.length + 1` resumptions, with no further waiting (`C29_error_reraised`, part 3). -/
+theorem C29_error_countdown (m : Merge α) (e : Nat) (i : Nat) (rest : List (Nat × α))
+    (hx : m.exc = some e) (hp : m.phase = .suspended i rest) :
+    ∃ m' em, m.step .resume = some (m', em) ∧ m'.exc = some e ∧
+      ((rest = [] ∧ em = none ∧ m'.phase = .finished (some e)) ∨
+       (∃ j v rest', rest = (j, v) :: rest' ∧ em = some (j, v) ∧ m'.phase = .suspended j rest')) :=
+  error_countdown m e i rest hx hp
+
+example : ∃ m : Merge Nat, (Merge.init false 3).exec [.prod 0 7, .prod 1 8, .err 2 5, .batch [0, 1, 2]] = some m
+    ∧ m.exc = some 5 ∧ m.phase = .suspended 0 [(1, 8)] :=
+  ⟨_, rfl, rfl, rfl⟩
 
 /-! ## list.sort(key=key) -/
 
